@@ -278,7 +278,8 @@ def _prim_check(seed: int, n: int) -> tuple[str | None, int]:
 
     import primcheck
 
-    cases = primcheck.gen_cases(random.Random(seed * 31 + 7), n)
+    rng = random.Random(seed * 31 + 7)
+    cases = primcheck.gen_cases(rng, n) + primcheck.gen_dict_cases(rng, n // 2) + primcheck.gen_msg_cases(rng, n // 2)
     tmpd = tempfile.mkdtemp(prefix="verif_prim_")
     try:
         (Path(tmpd) / "PrimCases.v").write_text(primcheck.coq_file(cases))
@@ -311,7 +312,7 @@ def source_ties(ctx, po: dict, pid: str) -> list[str]:
     if prim_bad:
         po["broken"].append(prim_bad)
     else:
-        ctx.report.notes.append(f"coq/tie/PyPrims.v (the meaning the source ties give to OrderedDict, deque, str.rpartition, set) agreed with CPython on "
+        ctx.report.notes.append(f"coq/tie/PyPrims.v (the meaning the source ties give to OrderedDict, deque, dict, str.rpartition, set, and to reading protobuf message objects: fields, defaults, HasField, WhichOneof, repeated fields) agreed with CPython on "
                                 f"{prim_n} random operations evaluated by vm_compute inside coqc")
     for (unit, t), res in zip(units, results):
         po["obligations"] += len(t["theorems"])
